@@ -314,6 +314,19 @@ pub fn extremal(tier: Tier) -> u64 {
         "r3k2r/pp1p1ppp/2n5/2b2b2/2pPp1n1/2N2N2/PPP1PPPP/RNBQKB1R b KQkq d3 0 1",
         "rnbqkb1r/ppp1pppp/2n2n2/2PpP1N1/2B2B2/2N5/PP1P1PPP/R2QK2R w KQkq d6 0 1",
         "rnbqkbnr/pppppppp/8/8/8/8/PPPPPPPP/RNBQKBNR w KQkq - 0 1",
+        // both kings attacked (knight / pawn / slider on the side not to move): a correct tree rejects
+        // these; if one gets through, a king can be captured three plies later
+        "4r1k1/p7/5N2/8/8/8/8/4K3 w - - 0 1",
+        "4K3/8/8/8/8/5n2/P7/4R1k1 w - - 0 1",
+        "4k3/3P4/8/8/8/8/3p4/4K3 w - - 0 1",
+        "4k3/3P4/8/8/8/8/3p4/4K3 b - - 0 1",
+        "4r1k1/8/8/8/8/8/8/4K1R1 w - - 0 1",
+        // double checks by two sliders in parsed positions (accepted): detection from scratch must keep both
+        "k3r3/8/8/8/7b/8/8/3QK3 w - - 0 1",
+        "k3q3/8/8/8/7q/8/8/3RK3 w - - 0 1",
+        "k3r3/8/8/8/7b/8/8/4K2R w - - 0 1",
+        "3qk3/8/8/7B/8/8/8/K3R3 b - - 0 1",
+        "4k2r/8/8/7B/8/8/8/K3R3 b - - 0 1",
     ];
     for f in odd_but_accepted {
         set_case(|| json!({"property": "C06", "case": {"kind": "bytes", "hex": f.bytes().map(|b| format!("{b:02x}")).collect::<String>()}}).to_string());
